@@ -288,11 +288,19 @@ UNHASHABLE = [["unh", "[1]", "[1]"], ["unh", "[]", "[]"], ["unh", "{}", "{}"], [
               ["unh", "A.new()", None], ["unh", "|x| x", None], ["unh", "print", "<built-in fn print>"],
               ["tup", [N("1", 1.0), ["unh", "[2]", "[2]"]]], ["tup", [["tup", [N("1", 1.0), ["unh", "[2]", "[2]"]]], N("3", 3.0)]],
               ["tup", [["unh", "{}", "{}"]]]]
+# unhashable keys that ALIAS the receiving map `m` (or themselves): formatting the ValueError message walks into the
+# map while the native is running -- the rejection must still be a catchable ValueError that leaves the map unchanged.
+# `sv` is a vector that contains itself (prelude).  HashMap has no `[]` / `[]=` (GetItem/SetItem handle strings,
+# tuples and vectors only), so the natives and the literal are all the entry points there are.
+ALIAS = [["unh", "m", None], ["unh", "[m]", None], ["unh", "[[m]]", None], ["unh", "[[[m]]]", None],
+         ["tup", [["unh", "m", None]]], ["tup", [N("1", 1.0), ["unh", "[m]", None]]],
+         ["tup", [["tup", [["unh", "[m]", None]]], N("2", 2.0)]], ["tup", [["tup", [["tup", [["unh", "m", None]]]]]]],
+         ["unh", "{1: m}", None], ["unh", "{1: [m]}", None], ["unh", "sv", "[[...]]"], ["tup", [["unh", "sv", "[[...]]"], ["unh", "m", None]]]]
 # tuples: element groups (names of the groups above, or nested lists)
 TUPLE_SHAPES = [["one", "s_ab"], ["zero"], [], ["one", "one"], ["two", "two"], ["one", "two"], ["two", "one"],
                 [["one", "two"], "three"], ["nil", "true"], ["nan"], ["Vec"], [["zero"], "nil"], ["s_empty", "false"],
                 ["big", ["half"]], ["rng03"], [[]]]
-PRELUDE = "#[constructor(new)] class A {}\n#[constructor(new)] class B {}\n"
+PRELUDE = "#[constructor(new)] class A {}\n#[constructor(new)] class B {}\nvar sv = []; sv.push(sv);\n"
 
 
 def gen_from_group(rng, g):
@@ -312,7 +320,7 @@ ALL_GROUPS = list(NUM_GROUPS) + list(STR_GROUPS) + list(ATOM_GROUPS)
 def gen_program(rng, maxops):
     """{'decls': n, 'stmts': [...]}; statements: ['decl', key] | ['ins', key, v] | ['get'|'has'|'rem', key] |
     ['clr'] ['len'] ['keys'] ['vals'] ['items'] | ['lit', [[key, v]..]]"""
-    style = rng.choice(["mixed", "mixed", "mixed", "numeric", "tuples", "ranges", "collide", "churn"])
+    style = rng.choice(["mixed", "mixed", "mixed", "numeric", "tuples", "ranges", "collide", "churn", "alias"])
     if style == "numeric":
         groups = rng.sample(list(NUM_GROUPS), rng.randint(3, 6)) + ["false", "nil"]
     elif style == "tuples":
@@ -357,8 +365,8 @@ def gen_program(rng, maxops):
             b, e = rng.choice(ranges)
             k = ["rng", b, e]
             return ["tup", [k, gen_from_group(rng, "one")]] if rng.random() < 0.15 else k
-        if c > 0.92:
-            return rng.choice(UNHASHABLE)
+        if c > (0.80 if style == "alias" else 0.92):
+            return rng.choice(ALIAS) if rng.random() < (0.8 if style == "alias" else 0.4) else rng.choice(UNHASHABLE)
         return gen_from_group(rng, rng.choice(groups))
 
     vcount = [0]
@@ -434,6 +442,16 @@ def range_evals(prog):
         elif s[0] == "lit":
             n += sum(cnt(k) for k, _ in s[1])
     return n
+
+
+def gen_alias_program(key):
+    """every entry point with one unhashable key that aliases the receiver, on an empty and on a filled map; the
+    sequence goes on after each rejection and ends with the contents (unchanged by the failed operations)"""
+    one, ab = N("1", 1.0), S('"ab"', "ab")
+    stmts = [["ins", key, 1], ["len"], ["ins", one, 2], ["ins", ["tup", [one, ab]], 3], ["ins", key, 4], ["get", key], ["has", key],
+             ["rem", key], ["lit", [[ab, 5], [key, 6]]], ["len"], ["items"], ["ins", one, 0], ["ins", key, 7], ["lit", [[key, 8]]],
+             ["rem", one], ["get", key], ["len"], ["keys"], ["vals"], ["items"]]
+    return {"style": "alias:" + k_src(key), "stmts": stmts}
 
 
 def decls_of(prog):
@@ -964,6 +982,7 @@ def run(ctx):
     for gap in (0, 6, 7, 8, 9):
         for via_tuple in (False, True):
             progs.append(gen_boundary_program(gap, via_tuple))
+    progs += [gen_alias_program(k) for k in ALIAS]
     nprog = 260 if quick else 4000
     progs += [gen_program(rng, 30 if rng.random() < 0.9 else 80) for _ in range(nprog)]
     np_, nontriv, stats = check_programs(ctx, progs, "prog")
@@ -980,7 +999,8 @@ def run(ctx):
         "rule": "yarel programs = operation sequences (literal, insert, remove, get, has_key, clear, len, keys/values/items) over key pools of "
                 "equal-but-differently-built keys (0/-0/0*-1, 1/1.0/2-1, 2^53/2^53+1, \"ab\"/\"a\"+\"b\"/interpolation, tuples and nested tuples built "
                 "separately, classes, ranges through the 8-entry cache incl. both sides of the eviction boundary, colliding hashes false/0/()/(1,1)/(1,2)/(2,1)), "
-                "NaN and unhashable values (vector, map, instance, closure, native, tuples holding a vector); every program is run on the implementation "
+                "NaN and unhashable values (vector, map, instance, closure, native, tuples holding a vector, and keys that ALIAS the receiver: the map itself, "
+                "vectors/tuples of depth 1-3 holding it, a map holding it as a value, a self-containing vector); every program is run on the implementation "
                 "and on M and S (coqc). Non-trivial = a program in which >= 2 differently-written == keys met the same entry, or an entry was removed and "
                 "inserted again (measured from S's trace; distinct programs counted). Plus value lists (hash / has_hash / == matrix vs the model).",
         "traces_validated_against_impl": np_,
